@@ -7,7 +7,7 @@ use alloc::collections::LinkedList;
 macro_rules! c07_apply_error {
     ($name:ident, $had_cf:expr) => {
 #[kani::proof]
-#[kani::unwind(5)]
+#[kani::unwind(6)]
 #[kani::stub(core::fmt::write, crate::verif_harness::stub_write)]
 fn $name() {
     // request: any first byte / code / id, two symbolic token bytes (the length-generic token copy is c07_new_response's job)
